@@ -310,7 +310,7 @@ def inline_fresh_constants(tree: ast.Module, ref_mod: dict) -> None:
 # ----------------------------------------------------------------------------------------------- fresh helpers
 def _params(fn: ast.FunctionDef) -> Optional[List[str]]:
     a = fn.args
-    if a.vararg or a.kwarg or a.kwonlyargs or a.posonlyargs or a.defaults or a.kw_defaults:
+    if a.vararg or a.kwarg or a.kwonlyargs or a.posonlyargs or a.kw_defaults or any(not _is_literal(d) for d in a.defaults):
         return None
     return [x.arg for x in a.args]
 
@@ -362,6 +362,18 @@ def inline_fresh_helpers(tree: ast.Module, ref_mod: dict) -> None:
                         deco = [_u(d) for d in m.decorator_list]
                         if deco in ([], ["staticmethod"]):
                             cands[(st.name, m.name)] = (m, st, "static" if deco else "method")
+                        elif deco == ["property"] and m.name.startswith("_") and not any(isinstance(x, ast.FunctionDef) and x.name == m.name and x is not m for x in st.body):
+                            # a fresh read-only private property that is one expression: every self.<name> is that expression
+                            pb = _strip_doc(m.body)
+                            uses_ = [x for x in ast.walk(tree) if isinstance(x, ast.Attribute) and x.attr == m.name]
+                            inside = {id(x) for f_ in st.body if isinstance(f_, ast.FunctionDef) for x in ast.walk(f_)}
+                            if len(pb) == 1 and isinstance(pb[0], ast.Return) and pb[0].value is not None and uses_ \
+                                    and all(isinstance(x.ctx, ast.Load) and isinstance(x.value, ast.Name) and x.value.id == "self" and id(x) in inside for x in uses_) \
+                                    and not any(isinstance(x, (ast.Lambda, ast.Yield, ast.Await, ast.NamedExpr)) for x in ast.walk(pb[0])):
+                                for x in uses_:
+                                    _replace_node(tree, x, copy.deepcopy(pb[0].value))
+                                st.body = [x for x in st.body if x is not m] or [ast.Pass()]
+                                changed = True
         for (cname, hname), (h, owner, kind) in list(cands.items()):
             if hname.startswith("__") and hname.endswith("__"):
                 continue
@@ -415,7 +427,7 @@ def inline_fresh_helpers(tree: ast.Module, ref_mod: dict) -> None:
                 # bind arguments
                 amap = {}
                 args = list(call.args)
-                if len(args) + len(call.keywords) != len(ps):
+                if len(args) + len(call.keywords) > len(ps) or any(isinstance(a, ast.Starred) for a in args):
                     ok_all = False
                     break
                 for p, a in zip(ps, args):
@@ -425,6 +437,14 @@ def inline_fresh_helpers(tree: ast.Module, ref_mod: dict) -> None:
                         ok_all = False
                         break
                     amap[k.arg] = k.value
+                # parameters left out take their (literal) default
+                dflt = dict(zip([a.arg for a in (h.args.posonlyargs + h.args.args)][-len(h.args.defaults):] if h.args.defaults else [], h.args.defaults))
+                for kw, dv in zip(h.args.kwonlyargs, h.args.kw_defaults):
+                    if dv is not None:
+                        dflt[kw.arg] = dv
+                for p in ps:
+                    if p not in amap and p in dflt and _is_literal(dflt[p]):
+                        amap[p] = copy.deepcopy(dflt[p])
                 if not ok_all or set(amap) != set(ps):
                     ok_all = False
                     break
@@ -458,13 +478,23 @@ def inline_fresh_helpers(tree: ast.Module, ref_mod: dict) -> None:
                             continue
                         bad = True
                         break
-                    if _simple_arg(a) or uses[p] <= 1:
+                    # an argument is evaluated at the call: only what cannot change inside the helper may be put where the
+                    # parameter is read (a name the helper does not assign, a literal, or anything when the helper is a single
+                    # expression); everything else is bound to a local first and left to the temp inliner
+                    stable = isinstance(a, ast.Constant) or (isinstance(a, ast.Name) and a.id not in (hlocals | reassigned)) \
+                        or (_simple_arg(a) and not any(isinstance(x, ast.Attribute) and isinstance(x.ctx, (ast.Store, ast.Del)) for x in ast.walk(h))
+                            and not any(isinstance(x, ast.Call) for s_ in body[:-1] for x in ast.walk(s_)))
+                    if stable or (len(body) == 1 and isinstance(body[0], ast.Return) and uses[p] <= 1):
                         sub[p] = a
                     else:
+                        pname = p
                         if p in caller_names and not (isinstance(a, ast.Name) and a.id == p):
-                            bad = True
-                            break
-                        pre.append(ast.Assign(targets=[ast.Name(id=p, ctx=ast.Store())], value=copy.deepcopy(a)))
+                            pname = f"{p}__{nth}"
+                            if pname in caller_names:
+                                bad = True
+                                break
+                            ren[p] = pname
+                        pre.append(ast.Assign(targets=[ast.Name(id=pname, ctx=ast.Store())], value=copy.deepcopy(a)))
                 if bad:
                     continue
                 if expr_helper:
@@ -478,7 +508,12 @@ def inline_fresh_helpers(tree: ast.Module, ref_mod: dict) -> None:
                 # statement helper: locate the statement holding the call
                 loc = _stmt_of(fn, call)
                 if loc is None:
-                    continue
+                    loc = _nested_site(fn, call, body)
+                    if loc is None:
+                        continue
+                    nested = True
+                else:
+                    nested = False
                 blk, idx, st = loc
                 # locals of the helper must not clobber live names of the caller
                 targets = set()
@@ -504,6 +539,17 @@ def inline_fresh_helpers(tree: ast.Module, ref_mod: dict) -> None:
                                 x.name = x.name + suffix
                 rets = [x for s in hb for x in ast.walk(s) if isinstance(x, ast.Return)]
                 new_stmts = None
+                if nested:
+                    # straight-line helper used inside a larger expression: its statements go in front of the statement, the
+                    # call becomes the returned expression (nothing that calls is evaluated before it there)
+                    if len(rets) == 1 and hb[-1] is rets[0] and rets[0].value is not None:
+                        for s_ in pre + hb[:-1]:
+                            ast.copy_location(s_, st)
+                        if _replace_node(st, call, rets[0].value):
+                            blk[idx:idx] = pre + hb[:-1]
+                            done_sites += 1
+                            changed = True
+                    continue
                 if isinstance(st, ast.Return) and st.value is call:
                     new_stmts = pre + hb                    # tail position: the helper's returns are the caller's
                     if not always_exits(hb):
@@ -533,6 +579,28 @@ def inline_fresh_helpers(tree: ast.Module, ref_mod: dict) -> None:
         if not changed:
             break
     ast.fix_missing_locations(tree)
+
+
+def _nested_site(fn: ast.FunctionDef, call: ast.Call, body):
+    """(block, index, statement) of the simple statement or if test that evaluates `call` somewhere inside, provided the
+    helper is straight-line code ending in its only return and nothing that calls is evaluated before the call."""
+    from .loader import _eval_events, _SIMPLE_STMTS
+    if not body or not isinstance(body[-1], ast.Return) or any(isinstance(x, (ast.Return, ast.If, ast.For, ast.While, ast.Try, ast.With)) for s in body[:-1] for x in ast.walk(s)):
+        return None
+    for _owner, _fld, blk in blocks_of(fn):
+        for i, st in enumerate(blk):
+            scope = st.test if isinstance(st, ast.If) else (st if isinstance(st, _SIMPLE_STMTS) else None)
+            if scope is None or not any(x is call for x in ast.walk(scope)):
+                continue
+            if any(isinstance(x, (ast.Lambda, ast.ListComp, ast.SetComp, ast.DictComp, ast.GeneratorExp, ast.IfExp, ast.BoolOp)) for x in ast.walk(scope)):
+                return None
+            events, reached = _eval_events(scope, call)
+            # the call's own arguments are evaluated before it in both forms
+            own = {id(x) for x in ast.walk(call)}
+            if not reached or any(k == "call" and id(e) not in own for k, e in events):
+                return None
+            return blk, i, st
+    return None
 
 
 def _returns_to_assign(stmts: List[ast.stmt], targets) -> Optional[List[ast.stmt]]:
@@ -570,6 +638,15 @@ def _returns_to_assign(stmts: List[ast.stmt], targets) -> Optional[List[ast.stmt
             if b is None or o is None:
                 return None
             out.append(ast.If(test=s.test, body=b or [ast.Pass()], orelse=o))
+            return out
+        if isinstance(s, ast.Try) and last and not s.finalbody and not s.orelse:
+            # `try: ... return a` / `except E: ... return b`: every part ends in its return
+            b = _returns_to_assign(s.body, targets)
+            hs = [_returns_to_assign(h.body, targets) for h in s.handlers]
+            if b is None or any(h is None for h in hs):
+                return None
+            out.append(ast.Try(body=b or [ast.Pass()], handlers=[ast.ExceptHandler(type=h.type, name=h.name, body=hb or [ast.Pass()]) for h, hb in zip(s.handlers, hs)],
+                               orelse=[], finalbody=[]))
             return out
         return None
     return None
@@ -799,7 +876,8 @@ def rename_fresh_members(tree: ast.Module, ref_mod: dict) -> None:
             continue
         cur = set(stored_attrs(c))
         ref = set(ref_attrs[c.name])
-        missing = sorted(a for a in ref - cur if a not in all_attr_uses)          # gone from the whole module
+        self_uses = {x.attr for x in ast.walk(c) if isinstance(x, ast.Attribute) and isinstance(x.value, ast.Name) and x.value.id == "self"}
+        missing = sorted(a for a in ref - cur if a not in self_uses)               # no longer an attribute of this class's instances
         fresh = sorted(a for a in cur - ref if a not in all_ref_attr_names and a.startswith("_"))
         if missing and fresh:
             pairs = {}
@@ -903,6 +981,35 @@ def normalise_expression_forms(fn: ast.FunctionDef, ref_fn: dict) -> None:
                             del blk[i + 1]
                         changed = True
                         break
+                # `return <test>`  <->  `if <test>: return True` / `return False`
+                ref_lines = ref_fn.get("_lines")
+                if ref_lines is None:
+                    ref_lines = ref_fn["_lines"] = {l.strip() for l in ref_fn.get("src", "").splitlines()}
+                if isinstance(st, ast.Return) and isinstance(st.value, (ast.Compare, ast.BoolOp)) and _u(st) not in ref_lines \
+                        and "return True" in ref_lines and "return False" in ref_lines:
+                    k, nk = _key(st.value), _key(negate(st.value))
+                    if k in stmt_keys or nk in stmt_keys:
+                        pos = k in stmt_keys
+                        test = st.value if pos else negate(st.value)
+                        blk[i:i + 1] = [ast.copy_location(ast.If(test=test, body=[ast.Return(value=ast.Constant(value=pos))], orelse=[]), st),
+                                        ast.copy_location(ast.Return(value=ast.Constant(value=not pos)), st)]
+                        changed = True
+                        break
+                if isinstance(st, ast.If) and len(st.body) == 1 and isinstance(st.body[0], ast.Return) and isinstance(st.body[0].value, ast.Constant) \
+                        and isinstance(st.body[0].value.value, bool) and isinstance(st.test, (ast.Compare, ast.BoolOp)):
+                    other = st.orelse[0] if len(st.orelse) == 1 else (blk[i + 1] if not st.orelse and i + 1 < len(blk) else None)
+                    if isinstance(other, ast.Return) and isinstance(other.value, ast.Constant) and isinstance(other.value.value, bool) \
+                            and other.value.value != st.body[0].value.value and _key(st.test) not in stmt_keys and _key(negate(st.test)) not in stmt_keys:
+                        val = st.test if st.body[0].value.value else negate(st.test)
+                        for cand_ in (val, negate(negate(val))):
+                            if _u(ast.Return(value=cand_)) in ref_lines:
+                                blk[i] = ast.copy_location(ast.Return(value=cand_), st)
+                                if not st.orelse:
+                                    del blk[i + 1]
+                                changed = True
+                                break
+                        if changed:
+                            break
                 # conditional-expression assignment where the reference has an if statement, and the reverse
                 if isinstance(st, ast.Assign) and len(st.targets) == 1 and isinstance(st.value, ast.IfExp):
                     k, nk = _key(st.value.test), _key(negate(st.value.test))
